@@ -137,7 +137,7 @@ structure Api where
 def currentApi : Api :=
   { isDerivedFrom, commonBaseClass, getProperty, getPublicMethod, getEnumByVariant, getType }
 
-/-- /repo after /verif/.work/C17.fix.diff -/
+/-- /repo after the F10 repair (commit 8d2984c) -/
 def repairedApi : Api :=
   { isDerivedFrom := Repaired.isDerivedFrom, commonBaseClass := Repaired.commonBaseClass,
     getProperty := Repaired.getProperty, getPublicMethod := Repaired.getPublicMethod,
@@ -204,7 +204,9 @@ private def withRequest (args : List Sexp) (k : Table → List Query → Sexp) :
 
 /-- model side: `cg` (exact answers) and `f10-cg` (coarse projection of the model = the F10 variant of the oracle) -/
 def handleModel (tag : String) (args : List Sexp) : Sexp :=
-  let api := if tag == "cg-repaired" then repairedApi else currentApi
+  -- /repo carries the F10 repair (commit 8d2984c): `cg` is the repaired code; the pre-repair behaviour stays
+  -- available as `cg-prefix` (pre-repair witness) and `f10-cg` (coarse projection of the pre-repair model)
+  let api := if tag == "cg" || tag == "cg-repaired" then repairedApi else currentApi
   withRequest args fun t qs => .list (.atom "ans" :: qs.map (runModel api t (tag == "f10-cg")))
 
 /-! specification side: computed from QV.Spec.Graph only, on the graph reading `toGraph` of the table -/
